@@ -170,47 +170,47 @@ def push_counts(ctx, body, lp, push_blocks):
     return tot
 
 
-def r2(ctx, vb, core):
+def r2(ctx, vb, core, RULE='R-C03-2'):
     rep = ctx.rep
     cfg = ctx.cfgof(core)
     rls = result_local(ctx, core)
     if len(rls) != 1:
-        rep.anchor_missing('R-C03-2', 'R-C03-2/core/result-vector', 'cannot identify the single result vector of %s (%s)' % (core.path, rls))
+        rep.anchor_missing(RULE, RULE + '/core/result-vector', 'cannot identify the single result vector of %s (%s)' % (core.path, rls))
         return
     rl = next(iter(rls))
     evs = ctx.eng.bx(core).events_on(('L', rl))
     pushes = [e for e in evs if e['decl'] == 'std::vec::Vec::<T, A>::push']
     others = [e for e in evs if e['decl'] != 'std::vec::Vec::<T, A>::push']
-    rep.floor('R-C03-2', 'result push sites', len(pushes), 2)
+    rep.floor(RULE, 'result push sites', len(pushes), 2)
     for e in others:
-        rep.violation('R-C03-2', 'R-C03-2/core/result-vector/%s' % e['decl'].split('::')[-1], 'the result vector is modified by %s (only one push per member is expected)' % e['decl'], ctx.where(core, e['bb']))
+        rep.violation(RULE, RULE + '/core/result-vector/%s' % e['decl'].split('::')[-1], 'the result vector is modified by %s (only one push per member is expected)' % e['decl'], ctx.where(core, e['bb']))
     if not pushes:
         return
     loops = {tuple(cfg.loop_of.get(e['bb'], [])) for e in pushes}
     if len(loops) != 1 or not next(iter(loops)):
-        rep.violation('R-C03-2', 'R-C03-2/core/one-loop', 'result pushes are spread over different loops or outside any loop: %s' % sorted(loops), ctx.where(core, pushes[0]['bb']))
+        rep.violation(RULE, RULE + '/core/one-loop', 'result pushes are spread over different loops or outside any loop: %s' % sorted(loops), ctx.where(core, pushes[0]['bb']))
         return
     h = next(iter(loops))[-1]
     lp = ctx.loops(core)[h]
     cnt = push_counts(ctx, core, lp, {e['bb'] for e in pushes})
-    rep.check(cnt == (1, 1), 'R-C03-2', 'R-C03-2/core/one-push-per-member',
+    rep.check(cnt == (1, 1), RULE, RULE + '/core/one-push-per-member',
               'every accepted path through one iteration of the per-proof loop pushes exactly one result (%d push sites on disjoint paths)' % len(pushes),
               'paths through one iteration of the per-proof loop push between %s results' % (cnt,), ctx.where(core, lp.header))
     # order: the loop walks the proof / statement slices whole and in order
     it = lp.iter_term
     ads = ctx.adapters(it) if it is not None else ['?']
     params = {x[2] for x in walk(it) if x.tag == 'param'} if it is not None else set()
-    rep.check(it is not None and not ads and {2, 3} <= params and lp.driver_only_exit, 'R-C03-2', 'R-C03-2/core/in-order',
+    rep.check(it is not None and not ads and {2, 3} <= params and lp.driver_only_exit, RULE, RULE + '/core/in-order',
               'the per-proof loop walks zip(proofs, statements, ..) whole and in order: %s' % short(it, 120),
               'the per-proof loop iterates %s (adapters %s, exhaustive=%s)' % (short(it, 160) if it is not None else None, ads, lp.driver_only_exit), ctx.where(core, lp.header))
     # the result vector starts empty
     wd = ctx.eng.bx(core).whole_defs(rl)
-    rep.check(len(wd) == 1 and wd[0][2] == 'call' and callee_decl(wd[0][3]).split('::')[-1] in ('with_capacity', 'new'), 'R-C03-2', 'R-C03-2/core/starts-empty',
+    rep.check(len(wd) == 1 and wd[0][2] == 'call' and callee_decl(wd[0][3]).split('::')[-1] in ('with_capacity', 'new'), RULE, RULE + '/core/starts-empty',
               'the result vector is created empty once', 'the result vector is not created empty by a single constructor', ctx.where(core))
     # verify_batch appends chunk results in chunk order and returns them
     vls = result_local(ctx, vb)
     if len(vls) != 1:
-        rep.anchor_missing('R-C03-2', 'R-C03-2/verify_batch/result-vector', 'cannot identify the result vector of verify_batch')
+        rep.anchor_missing(RULE, RULE + '/verify_batch/result-vector', 'cannot identify the result vector of verify_batch')
         return
     vl = next(iter(vls))
     vevs = ctx.eng.bx(vb).events_on(('L', vl))
@@ -219,7 +219,7 @@ def r2(ctx, vb, core):
     if good:
         a = ctx.eng.operand(vb, vevs[0]['bb'], TERM_IDX, vevs[0]['args'][0])
         src_ok = any(x.tag == 'call' and x[1] == core.path for x in walk(a))
-    rep.check(good and src_ok, 'R-C03-2', 'R-C03-2/verify_batch/append-in-order', 'verify_batch appends each chunk\'s results (in chunk order) to the vector it returns',
+    rep.check(good and src_ok, RULE, RULE + '/verify_batch/append-in-order', 'verify_batch appends each chunk\'s results (in chunk order) to the vector it returns',
               'verify_batch does not simply append the core verifier\'s results: %s' % [e['decl'] for e in vevs], ctx.where(vb))
 
 
@@ -271,7 +271,9 @@ def r3(ctx, vb, core):
             if a[0] == 'cmp' and a[1] == 'Eq' and r['eff'] != 'bypass':
                 for x, y in ((a[2], a[3]), (a[3], a[2])):
                     if elem_side in x and field in x and ref_side in y and field in y and member_ctx(c):
-                        return r
+                        fa = [z[1] for z in c if z[0] == 'forall' and 'p1' in z[1]]
+                        if ('<skip>' in x) == any('skip(' in f for f in fa):
+                            return r
         return None
     for nm, field in (('blinding generators', '.g_base_vec'), ('value generator', '.h_base'), ('bit length', '.gens_capacity'), ('extension degree', '.extension_degree')):
         r = find_eq(field, 'each(p1)', "p1['first']")
@@ -279,7 +281,14 @@ def r3(ctx, vb, core):
                   'no guard compares every member\'s %s with member 0\'s' % nm, ctx.where(cons, r['guard'].bb) if r else ctx.where(cons))
     # len(d1) of every proof (first and others) against the extension degree
     d_first = [r for c, a, r in flat if a[0] == 'cmp' and a[1] == 'Eq' and any("len(p2['first'].d1)" in x for x in a[2:4]) and any('.extension_degree' in x for x in a[2:4]) and not [y for y in c if y[0] == 'forall']]
-    d_rest = [r for c, a, r in flat if a[0] == 'cmp' and a[1] == 'Eq' and any('len(each(p2).d1' in x for x in a[2:4]) and any('.extension_degree' in x for x in a[2:4]) and member_ctx(c)]
+    def aligned(c, side):
+        """the element on `side` is skipped exactly as the quantified iterator is (statement i is paired with proof i)"""
+        fa = [x[1] for x in c if x[0] == 'forall' and 'p1' in x[1]]
+        ctx_skip = any('skip(' in f for f in fa)
+        whole_skip = any(f.startswith('skip(') for f in fa)
+        return ('<skip>' in side) == ctx_skip and (whole_skip or not ctx_skip)
+    d_rest = [r for c, a, r in flat if a[0] == 'cmp' and a[1] == 'Eq' and any('len(each(p2).d1' in x for x in a[2:4]) and any('.extension_degree' in x for x in a[2:4]) and member_ctx(c)
+              and all(aligned(c, x) for x in a[2:4] if 'each(p2)' in x)]
     rep.check(bool(d_first), 'R-C03-3', 'R-C03-3/consistency/d1-first', 'len(d1) of the first proof is compared with the extension degree',
               'len(d1) of the first proof is not compared with the extension degree', ctx.where(cons))
     rep.check(bool(d_rest), 'R-C03-3', 'R-C03-3/consistency/d1-rest', 'len(d1) of every other proof is compared with the extension degree',
